@@ -138,6 +138,9 @@ func Compare(ex *Expect, o *Outcome, f Facets) []string {
 		if f.CalledAs && ex.Called[k] && o.CalledAs[k] != ex.CalledAs[k] {
 			out = append(out, fmt.Sprintf("CalledAs(%s) is %q, want %q", k, o.CalledAs[k], ex.CalledAs[k]))
 		}
+		if f.CalledAs && !ex.Called[k] && !o.Called[k] && o.CalledAs[k] != "" {
+			out = append(out, fmt.Sprintf("CalledAs(%s) is %q although the option was not called", k, o.CalledAs[k]))
+		}
 	}
 	if f.Warnings {
 		if m := warnMatches(ex, o.Warnings); m != "" {
